@@ -1,6 +1,7 @@
 """C20 (PCB trace / plane resistance) and other checks whose cases are enumerated by a TLC model
 and validated by their own trace specification."""
 import re
+import warnings
 
 import tlc
 from check import Result, conclude
@@ -403,6 +404,21 @@ def run_c19(ctx):
                 for _ in range(1 if ctx.quick else 2):
                     conf = drv_diag.random_conf(rng, pj) if rng.random() < 0.7 else None
                     cases.append(drv_diag.render_case(s, len(cases), heat, rng.random() < 0.7, conf, tmp))
+        # nano-power systems: every loss is tiny (pW ... nW) but not zero - colours and labels follow them all the same
+        import sysloss.components as C
+        from sysloss.system import System
+        for k in range(3 if ctx.quick else 30):
+            with warnings.catch_warnings():
+                warnings.simplefilter("ignore")
+                s = System("nano", C.Source("S", vo=rng.choice([0.9, 1.8, 3.0])))
+                s.add_comp("S", comp=C.RLoss("R1", rs=rng.choice([1.0, 10.0, 47.0])))
+                s.add_comp("R1", comp=C.ILoad("L1", ii=rng.choice([1e-6, 3e-6]), loss=False))
+                s.add_comp("S", comp=C.RLoss("R2", rs=rng.choice([2.2, 22.0])))
+                s.add_comp("R2", comp=C.LinReg("LR", vo=0.5, vdrop=0.05, ig=rng.choice([1e-9, 3e-9])))
+                s.add_comp("LR", comp=C.ILoad("L2", ii=rng.choice([2e-9, 5e-9])))
+            pj = project(s)
+            structs.add(struct_digest(pj))
+            cases.append(drv_diag.render_case(s, len(cases), True, False, None, tmp))
         # systems left behind by edit histories (renames, replacements, deletions with and without children, re-adding:
         # freed node indices, re-ordered registries) - the diagram must show the final structure, not the history
         import drv_edit
